@@ -14,7 +14,7 @@ MANIFEST = {
             "reverse, concat, flatten/chunk, zip, slice/head/tail, range, keys/values/entries, group_by/count_by "
             "partition, count_by's counter exact for every n < 2^53 (C14_count_num_exact, Flocq Bplus_correct), join/split, indexing, field access, spreading, string/character consistency, no panic in "
             "range/sort), model tied to the code by the BUILTIN and EVAL correspondence streams "
-            "and by the laws re-evaluated on the implementation's own serialised results",
+            "and by the laws re-evaluated on the implementation's own serialised results; round 7: LONG-SORT family in the law search (sort / sort_by stability on lists of 33..96 elements drawn from pools of equal-but-distinguishable members such as 0 / -0) after seed C14-11",
     "note": "trusted: Coq kernel + vm_compute; hand transcription of 26 built-in arms and of the Access/DotAccess/"
             "Spread arms and of the repo's own stable merge sort (validated by correspondence every run); "
             "str::split/replace/contains as naive search, str::trim/to_uppercase/to_lowercase and f64 Display as oracles; "
